@@ -221,6 +221,12 @@ def named_cases():
         w2[80], w2[81] = w2[81], w2[80]
         c.append((fam_fmt, w2, {"kind": "wrap", "n": 120, "n0": 1, "corrupted": []}))
         c.append((fam_fmt, [4, 2, 9, 3], {"kind": "wrap", "n": 4, "n0": 2, "corrupted": []}))
+        # ... and wrapped passes that also hold records numbered 0 (never a valid number for POD): they go, nothing else does
+        for zpos in ([20], [90], [5, 100]):
+            w3 = base[50:] + base[:50]
+            for z in zpos:
+                w3[z] = 0
+            c.append((fam_fmt, w3, {"kind": "wrap", "n": 120, "n0": 1, "corrupted": list(zpos)}))
         c.append((fam_fmt, [0xFFFF, 0x8001] + base, {"kind": "garbage", "n": 122, "n0": 1, "corrupted": []}))
         z = list(base); z[0] = 301
         c.append((fam_fmt, z, {"kind": "first-corrupt", "n": 120, "n0": 1, "corrupted": [0], "exact_clause": True}))
